@@ -345,6 +345,43 @@ func c09Run(c c09Case) Verdict {
 					}
 					break
 				}
+				if n := len(wantCodes); outcome == "success" && len(sc.FinalData) > 0 && len(rs) == n+1 && rs[n-1].Code == 334 {
+					// The mechanism finished with data for the client. SMTP's
+					// 235 cannot carry it: a server either drops it, or (RFC
+					// 4954 section 4) sends it as one more challenge, which
+					// the client acknowledges with an empty response. The
+					// second way the client's answer still counts: a
+					// cancellation or a line that is not base64 must not end
+					// in 235.
+					cls["final_data_sent_as_challenge"] = true
+					extra, last := rs[n-1], rs[n]
+					if extra.Text() != b64(sc.FinalData) {
+						return fail(failf("challenge", "act %d: the mechanism's final data %q sent as %q", ai, sc.FinalData, extra.Text()))
+					}
+					tok := "*"
+					if len(steps) > 0 {
+						tok = steps[0]
+					}
+					ack, okTok := decodeToken(tok, false)
+					switch {
+					case tok == "*" || !okTok:
+						if last.Class() == 2 || last.Class() == 3 {
+							return fail(failf("auth-replies", "act %d: the client answered the last challenge with %q (a cancellation, or not base64), yet the exchange ended in %s", ai, tok, last))
+						}
+						outcome = "cancelled"
+					case len(ack) == 0:
+						if last.Code != 235 {
+							return fail(failf("auth-replies", "act %d: the client acknowledged the final data with an empty response, the mechanism had succeeded, yet the reply is %s", ai, last))
+						}
+					default:
+						// a non-empty answer to data that asks for none: the server's call
+						if last.Code != 235 {
+							outcome = "failed"
+						}
+					}
+					rs = append(append([]harness.Reply(nil), rs[:n-1]...), last)
+					wantCodes[n-1] = last.Code
+				}
 				cls["exchange_"+outcome] = true
 				if len(sc.Challenges) > 0 {
 					cls["with_challenges"] = true
@@ -437,6 +474,10 @@ func c09Gen(t *rapid.T) c09Case {
 			sc.Final = harness.Decision{Kind: "smtp", Code: 535, Enh: [3]int{5, 7, 8}, Msg: "Authentication failed"}
 		case 1:
 			sc.Final = harness.Decision{Kind: "plain", Msg: "backend trouble"}
+		default:
+			if rapid.IntRange(0, 2).Draw(t, "final_data") == 0 {
+				sc.FinalData = rapid.SliceOfN(rapid.Byte(), 1, 10).Draw(t, "final_data_octets")
+			}
 		}
 		c.SASL = append(c.SASL, sc)
 	}
@@ -959,6 +1000,10 @@ func c09GenClient(t *rapid.T) c09ClientCase {
 		c.Server.Final = harness.Decision{Kind: "smtp", Code: 535, Enh: [3]int{5, 7, 8}, Msg: "Authentication failed"}
 	case 1:
 		c.Server.Final = harness.Decision{Kind: "plain", Msg: "backend trouble"}
+	default:
+		if rapid.IntRange(0, 2).Draw(t, "final_data") == 0 {
+			c.Server.FinalData = rapid.SliceOfN(rapid.Byte(), 1, 10).Draw(t, "final_data_octets")
+		}
 	}
 	if len(c.Server.Challenges) > 0 && rapid.IntRange(0, 4).Draw(t, "err") == 0 {
 		c.ErrAt = rapid.IntRange(0, len(c.Server.Challenges)-1).Draw(t, "errat")
